@@ -31,15 +31,15 @@ TD, TR = 4.0, 1.0
 CLASSES = ("delta", "deltaplus", "exp", "dexp")
 
 
-def build(cname, dt, delay, mode, tol, cur_ob, spk_ob, B, inplace):
+def build(cname, dt, delay, mode, tol, cur_ob, spk_ob, B, inplace, shape=(2,)):
     kw = dict(delay=delay, interp_tol=tol, current_overbound=cur_ob, spike_overbound=spk_ob, batch_size=B, inplace=inplace)
     if cname == "delta":
-        return DeltaCurrent((2,), dt, spike_charge=Q, interp_mode=mode, **kw)
+        return DeltaCurrent(shape, dt, spike_charge=Q, interp_mode=mode, **kw)
     if cname == "deltaplus":
-        return DeltaPlusCurrent((2,), dt, spike_charge=Q, interp_mode=mode, **kw)
+        return DeltaPlusCurrent(shape, dt, spike_charge=Q, interp_mode=mode, **kw)
     if cname == "exp":
-        return SingleExponentialCurrent((2,), dt, spike_charge=Q, time_constant=TAU, spike_interp_mode=mode, **kw)
-    return DoubleExponentialCurrent((2,), dt, spike_charge=Q, tc_decay=TD, tc_rise=TR, spike_interp_mode=mode, **kw)
+        return SingleExponentialCurrent(shape, dt, spike_charge=Q, time_constant=TAU, spike_interp_mode=mode, **kw)
+    return DoubleExponentialCurrent(shape, dt, spike_charge=Q, tc_decay=TD, tc_rise=TR, spike_interp_mode=mode, **kw)
 
 
 def response(cname, age, dt):
@@ -166,7 +166,7 @@ def close(a, b):
     return abs(float(a) - b) <= 1e-5 * max(1.0, abs(b))
 
 
-def shard(cname, dt, delayk, mode, tol_k, ob_kind, B, T, via="ctor"):
+def shard(cname, dt, delayk, mode, tol_k, ob_kind, B, T, via="ctor", shape=(2,)):
     """via: how the synapse got its configuration - constructor, or constructed with another maximum delay / step time and then
     assigned ``delay`` / ``dt`` through the public setters before the run (every delayed history must follow)"""
     tally = Tally()
@@ -174,7 +174,7 @@ def shard(cname, dt, delayk, mode, tol_k, ob_kind, B, T, via="ctor"):
     tol = tol_k * dt
     cur_ob = {"cfg": 7.0, "none": None, "zero": 0.0}[ob_kind]
     spk_ob = {"cfg": True, "none": None, "zero": False}[ob_kind]
-    cfg = {"class": cname, "dt": dt, "delay": delay, "interp_mode": mode, "tol": tol, "overbound": ob_kind, "B": B, "configured_via": via}
+    cfg = {"class": cname, "dt": dt, "delay": delay, "interp_mode": mode, "tol": tol, "overbound": ob_kind, "B": B, "configured_via": via, "synapse_shape": list(shape)}
     grid = selector_grid(dt, delay, tol)
     elems = list(itertools.product((False, True), repeat=2))
 
@@ -184,7 +184,7 @@ def shard(cname, dt, delayk, mode, tol_k, ob_kind, B, T, via="ctor"):
         for ip in (False, True):
             try:
                 if via == "ctor":
-                    syns.append(build(cname, dt, delay, mode, tol, cur_ob, spk_ob, B, ip))
+                    syns.append(build(cname, dt, delay, mode, tol, cur_ob, spk_ob, B, ip, shape))
                 elif via == "delay-setter":
                     sy = build(cname, dt, dt if delay != dt else 2 * dt, mode, tol, cur_ob, spk_ob, B, ip)
                     sy.delay = delay
@@ -203,9 +203,9 @@ def shard(cname, dt, delayk, mode, tol_k, ob_kind, B, T, via="ctor"):
             # sample b gets the history letter rotated by b (forced to differ from sample 0)
             inj = INJ[t % 3] if cname == "deltaplus" else None
             ref.step(spikes, inj)
-            x = torch.tensor(spikes, dtype=torch.bool)
+            x = torch.tensor(spikes, dtype=torch.bool).reshape(B, *shape)
             for i, syn in enumerate(syns):
-                args = (x.clone(),) if inj is None else (x.clone(), torch.full((B, 2), inj))
+                args = (x.clone(),) if inj is None else (x.clone(), torch.full((B, *shape), inj))
                 g = Guard(*args)
                 outs[i] = syn(*args)
                 # inputs come back untouched and are not aliased by the spike / current history (overwritten before any read)
@@ -217,20 +217,22 @@ def shard(cname, dt, delayk, mode, tol_k, ob_kind, B, T, via="ctor"):
             ip = bool(i)
             tag = f"{cname}:{'inplace' if ip else 'outofplace'}"
             ret = outs[i]
-            if tuple(ret.shape) != (B, 2):
+            if tuple(ret.shape) != (B, *shape):
                 tally.violation(f"forward-shape:{tag}", case, f"forward returned shape {tuple(ret.shape)}")
                 return False
+            ret = ret.reshape(B, 2)
+            cur_attr, spk_attr = syn.current.reshape(B, 2), syn.spike.reshape(B, 2)
             for b in range(B):
                 for e in range(2):
                     exp = ref.cur[t][b][e]
                     if not close(ret[b, e], exp):
                         tally.violation(f"forward-current:{tag}", case, f"returned current[{b},{e}]={float(ret[b, e])}, impulse-response sum {exp}", exp, float(ret[b, e]))
                         ok = False
-                    if not close(syn.current[b, e], exp):
-                        tally.violation(f"current-attr:{tag}", case, f".current[{b},{e}]={float(syn.current[b, e])}, reference {exp}", exp, float(syn.current[b, e]))
+                    if not close(cur_attr[b, e], exp):
+                        tally.violation(f"current-attr:{tag}", case, f".current[{b},{e}]={float(cur_attr[b, e])}, reference {exp}", exp, float(cur_attr[b, e]))
                         ok = False
-                    if bool(syn.spike[b, e]) != ref.spk[t][b][e]:
-                        tally.violation(f"spike-attr:{tag}", case, f".spike[{b},{e}]={bool(syn.spike[b, e])}, input spike {ref.spk[t][b][e]}", ref.spk[t][b][e], bool(syn.spike[b, e]))
+                    if bool(spk_attr[b, e]) != ref.spk[t][b][e]:
+                        tally.violation(f"spike-attr:{tag}", case, f".spike[{b},{e}]={bool(spk_attr[b, e])}, input spike {ref.spk[t][b][e]}", ref.spk[t][b][e], bool(spk_attr[b, e]))
                         ok = False
             # delayed reads
             for what, obv in (("current", cur_ob), ("spike", spk_ob)):
@@ -247,6 +249,7 @@ def shard(cname, dt, delayk, mode, tol_k, ob_kind, B, T, via="ctor"):
                         sets.append(("het", torch.tensor([[float(s), float(s2)]] * B), [[[s], [s2]]] * B))
                         tally.mark("het_pairs", (len(grid), gi))
                 for kind, sel, selref in sets:
+                    sel = sel.reshape(B, *shape, -1) if kind == "D" else sel.reshape(B, *shape)
                     tally.add("queries")
                     try:
                         got = fn(sel)
@@ -302,7 +305,7 @@ def run(rep):
     jobs = []
     for cname in CLASSES:
         for dt in (1.0, 0.5):
-            for delayk in (0.0, 1.0, 2.0, 2.5):
+            for delayk in (0.0, 0.5, 1.0, 2.0, 2.5):  # 0.5: a maximum delay shorter than one step (two slots, off-grid reads)
                 for mode in ("previous", "nearest"):
                     for tol_k in (0.0, 0.25):
                         for ob in ("cfg", "none", "zero"):
@@ -310,6 +313,10 @@ def run(rep):
                                 if quick and B == 2 and (ob == "zero" or mode == "nearest"):
                                     continue
                                 jobs.append((shard, (cname, dt, delayk, mode, tol_k, ob, B, T)))
+                                if B == 2 and ob == "cfg" and tol_k == 0.0 and mode == "previous" and delayk in (0.0, 2.0):
+                                    # multi-dimensional / singleton synapse shapes (trailing-D selectors broadcast over all of them)
+                                    for shp in ((1, 2), (2, 1), (2, 1, 1)):
+                                        jobs.append((shard, (cname, dt, delayk, mode, tol_k, ob, B, T, "ctor", shp)))
                                 if B == 1 and ob == "cfg" and tol_k == 0.0 and mode == "previous" and delayk in (1.0, 2.5):
                                     jobs.append((shard, (cname, dt, delayk, mode, tol_k, ob, B, T, "delay-setter")))
                                     jobs.append((shard, (cname, dt, delayk, mode, tol_k, ob, B, T, "dt-setter")))
